@@ -443,6 +443,8 @@ func checkC03(r *Report) {
 	recycleCompleteRule(r, loadResolve("", true), "C03/RECYCLE-COMPLETE")
 	unitOpenRule(r, loadResolve("", true), "C03/UNIT-OPEN")
 	nCC := compareAfterCompleteRule(r, loadResolve("", true), "C03/COMPARE-AFTER-COMPLETE")
+	nZT := zeroBoundTagsRule(r, loadResolve("", true), "C03/ZERO-BOUND-TAGS")
+	r.floor("C03/ZERO-BOUND-TAGS", "all-zero tests of a bound in package semver", nZT, 1)
 	nMB := markersBothRule(r, loadResolve("", true), "C03/MARKERS-BOTH")
 	r.floor("C03/MARKERS-BOTH", "functions of package semver that compare one number with both markers", nMB, 1)
 	r.floor("C03/COMPARE-AFTER-COMPLETE", "completions (fill/setTail) of bounds in package semver", nCC, 4)
